@@ -263,7 +263,32 @@ def plan_C14(tier, seed):
         exhaustive=True, assumptions=["TLC", "harness deep fingerprint (reflection) of Schema trees and instances"])
 
 
-PLANS = {"C14": plan_C14, "C20": plan_C20, "C15": plan_C15, "C05": plan_C05, "C18": plan_C18, "C19": plan_C19, "C17": plan_C17, "C08": plan_C08, "C11": plan_C11, "C12": plan_C12, "C03": plan_C03, "C06": plan_C06, "C01": plan_C01, "C02": plan_C02, "C07": plan_C07}
+def plan_C13(tier, seed):
+    maxev = 18
+    jobs = [tlc("c13_sched", "Concurrency", {"MUT_SharedStack": "FALSE", "MaxEvents": maxev},
+                ["SameAsSequential", "StacksBalanced", "Emit"], workers=8)]
+    if tier != "quick":
+        jobs.append(tlc("c13_sched_sim", "Concurrency", {"MUT_SharedStack": "FALSE", "MaxEvents": 60},
+                        ["SameAsSequential", "StacksBalanced", "Emit"], workers=1, simulate="num=3000", depth=64))
+    return dict(
+        record=[dict(name="c13_record", family="conc-record", args=["-conc-out", "{work}/ConcData.tla", "-conc-max-events", "60"])],
+        tlc=jobs, parallel=2, race=True,
+        replay=[dict(name="c13_replay", family="sched", inputs=[j["name"] for j in jobs]),
+                dict(name="c13_stress", family="stress", inputs=[], race=True)],
+        rule="the frame-event programs of two Validate calls per scenario (8 scenarios: $dynamicRef chains, regexps and "
+             "required sets, unevaluated* annotations, uniqueItems hash seeds, recursion, oneOf/not) are RECORDED from the real "
+             "code through the frame hook and handed to Concurrency.tla; TLC enumerates every interleaving of the two programs "
+             "for scenarios with <= 16 events (thorough: plus 3000 simulated interleavings of the larger ones) checking that "
+             "every dynamic-anchor lookup equals its sequential result; each interleaving is replayed on the real code with the "
+             "blocking frame hook as scheduler gate and the verdict and every frame verdict compared with the call run alone. "
+             "Data-race clause: 8 goroutines x 40 ungated calls on shared Resolved / Schema tree / type caches / Loader document "
+             "in a -race build, results compared with sequential. Non-trivial = every schedule (two calls really interleave).",
+        exhaustive=(tier == "quick"),
+        assumptions=["TLC", "Go race detector", "frame hook placement (after push, before pop)",
+                     "gated replay serialises the two calls between hook points: it decides results, not data races"])
+
+
+PLANS = {"C13": plan_C13, "C14": plan_C14, "C20": plan_C20, "C15": plan_C15, "C05": plan_C05, "C18": plan_C18, "C19": plan_C19, "C17": plan_C17, "C08": plan_C08, "C11": plan_C11, "C12": plan_C12, "C03": plan_C03, "C06": plan_C06, "C01": plan_C01, "C02": plan_C02, "C07": plan_C07}
 
 
 def plan(prop, tier, seed):
